@@ -81,7 +81,10 @@ def _express_point(m, ti, li, inctx):
                         return None
                 elif route == "child":
                     g = g.replicate()
-                ctxs = [{"t": 1}, {"t": None, "other": 0}] if inctx else [{}, None, {"n": 1}]
+                # not named: also when the context holds a name that merely LOOKS like it (other case, trailing blank,
+                # full-width letter = NFKC-equal) — "named in the context" is exact key membership
+                ctxs = [{"t": 1}, {"t": None, "other": 0}, {"T": 1, "t": 0}] if inctx else \
+                    [{}, None, {"n": 1}, {"T": 1}, {"t ": 1, "\uff54": 1}]
                 for c in ctxs:
                     out = g.express(c)
                     if not isinstance(out, dict) or out.get("n") != 42 or set(out) - {"t", "n"}:
